@@ -519,7 +519,7 @@ func legC12(e *Engine) []Violation {
 				// 200 KB stored value from taking minutes
 				budget := 40000000
 				if e.tier == "thorough" {
-					budget = 200000000
+					budget = 100000000
 				}
 				per := budget / upTo / 3
 				if per > 3000 {
